@@ -65,7 +65,7 @@ var (
 	vNicks    = []string{"alice", "bob", "carol", "dave", "b[ob]", "eve", "fr\\ed", "FR|ED"}
 	vBadNicks = []string{"1bad", "", "a b", "#chan", "toolongnickname-toolongnickname-x", "nickserv", "FooServ"}
 	vChans    = []string{"#a", "#b", "#c", "#a,#b", "#Chan", "##a", "#@a"}
-	vBadChans = []string{"&x", "#", "a", "#a:b", ""}
+	vBadChans = []string{"&x", "#", "a", "#a:b", "", "0"}
 	vKeys     = []string{"k1", "k2"}
 	vTexts    = []string{"hi", "hello world", ":colon first", ""}
 	// the last two: what a trusted bridge forwards need not be an address (handlePostMessage keeps it as it is)
@@ -176,6 +176,11 @@ func vCfgEntry(r *rand.Rand, id, ts, rev int64) *vEntry {
 	if r.Intn(4) != 0 {
 		sb.WriteString("[[IRC.Operators]]\nName = \"op\"\nPassword = \"pw\"\n")
 		opers = append(opers, []interface{}{"op", "pw"})
+		if r.Intn(2) == 0 {
+			// a second operator with another password: a name goes with ITS password
+			sb.WriteString("[[IRC.Operators]]\nName = \"admin\"\nPassword = \"pw2\"\n")
+			opers = append(opers, []interface{}{"admin", "pw2"})
+		}
 	}
 	if r.Intn(4) != 0 {
 		sb.WriteString("[[IRC.Services]]\nPassword = \"spw\"\n")
@@ -502,7 +507,12 @@ func (g *vGen) next(step int, st map[string]interface{}) *vEntry {
 		case 4, 5, 6:
 			e.Data = fmt.Sprintf("USER %s 0 * :%s", pick(r, []string{"u1", "u2", "root"}), pick(r, []string{"Real Name", "R"}))
 		case 7:
-			switch r.Intn(6) {
+			switch r.Intn(8) {
+			case 6, 7:
+				// several parts between colons: tags in any case, bare keywords, empty parts, a tag twice
+				e.Data = "PASS :" + pick(r, []string{"hunter2:oper", "oper", "x:nickserv", "nickserv=a:b:oper=op pw", "OPER=op pw",
+					"oper=op pw:tail", ":oper=op pw", "oper=:x", "captcha:oper=op wrong:", "nickserv=:", "services=spw:x", "oper=op pw:oper=", "a:b:c",
+					"oper=admin pw2:nickserv=n", "Nickserv=x:y"})
 			case 0:
 				e.Data = "PASS services=spw"
 			case 1:
@@ -635,7 +645,7 @@ func (g *vGen) next(step int, st map[string]interface{}) *vEntry {
 	case 38:
 		e.Data = fmt.Sprintf("GLINE %s :%s", anyNick(), pick(r, []string{"spam", ""}))
 	case 39, 40, 41:
-		e.Data = pick(r, []string{"OPER op pw", "OPER op wrong", "OPER nobody pw", "OPER op"})
+		e.Data = pick(r, []string{"OPER op pw", "OPER op wrong", "OPER nobody pw", "OPER op", "OPER admin pw2", "OPER op pw2", "OPER admin pw"})
 	case 42, 56, 57:
 		e.Data = "AWAY :" + pick(r, []string{"gone", "", "brb soon"})
 	case 43:
@@ -915,8 +925,50 @@ func (g *vGen) oddaddr() []*vEntry {
 	return es
 }
 
+// crowd: so many members with long nicknames in one channel that the list of names no longer fits into one
+// line (what is cut, and where, must not depend on anything but the log)
+func (g *vGen) crowd() []*vEntry {
+	r := g.r
+	var es []*vEntry
+	g.rev++
+	cfg := vCfgEntry(r, 0, 0, g.rev)
+	for !cfg.CfgOk || cfg.Cfg["maxs"].(int64) != 0 || cfg.Cfg["maxc"].(int64) != 0 || cfg.Cfg["caplogin"].(bool) {
+		cfg = vCfgEntry(r, 0, 0, g.rev)
+	}
+	es = append(es, cfg)
+	base := g.id
+	line := func(sess int64, data string) {
+		es = append(es, &vEntry{T: "line", Sess: sess, Data: data, Sup: true, Conf: true})
+	}
+	const n = 19
+	for k := 0; k < n; k++ {
+		es = append(es, &vEntry{T: "create", Data: fmt.Sprintf("auth%04d-secret", base+int64(k)+1), Sup: true, Conf: true})
+	}
+	order := r.Perm(n)
+	for _, k := range order {
+		sess := base + int64(k) + 1
+		line(sess, fmt.Sprintf("NICK crowd-member-%02d-of-many-xxxxxxx", k))
+		line(sess, fmt.Sprintf("USER u%d 0 * :Real %d", k, k))
+	}
+	for _, k := range r.Perm(n) {
+		line(base+int64(k)+1, "JOIN #crowd")
+	}
+	a := base + int64(order[0]) + 1
+	line(a, "NAMES #crowd")
+	line(a, "WHO #crowd")
+	line(a, "PART #crowd")
+	line(a, "JOIN #crowd")
+	g.minlen = len(es) + 6
+	return es
+}
+
 func (g *vGen) warmup() []*vEntry {
 	r := g.r
+	if g.anySvsnick && r.Intn(5) == 0 {
+		// determinism-only histories: the model's string operators make states with hundreds of bytes of
+		// nicknames too slow to evaluate in TLC; the replicas' agreement is what is judged there
+		return g.crowd()
+	}
 	switch r.Intn(28) {
 	case 0, 1:
 		return g.volume()
